@@ -151,12 +151,15 @@ def fitBytes (raw : Bytes) (bl : Nat) : EncM Bytes := do
     pure (raw.take (bl / 8))
   else if 8 * raw.length < bl then
     odxraise .encode
+    if bl > 1048576 then raise .unmodelled                     -- lenient mode would pad to an absurd length
     pure (raw ++ List.replicate ((bl + 7) / 8 - raw.length) 0)
   else pure raw
 
 /-- `EncodeState.emplace_atomic_value` -/
 def emplaceAtomic (v : IVal) (bl : Nat) (bt : BaseType) (enc : Option Enc) (hl : Bool)
     (usedMask : Option Bytes) : EncM Unit := do
+  -- integer objects cannot be longer than 64 bits (the limit of the bitstruct module): unconditional EncodeError
+  if (bt = .int32 ∨ bt = .uint32) ∧ bl > 64 then raise .encode
   -- the value as the number handed to bitstruct (`u`, `r`, `f` formats all produce big-endian bits)
   let (raw, bl) ← (match bt with
     | .bytefield => do
@@ -194,14 +197,16 @@ def emplaceAtomic (v : IVal) (bl : Nat) (bt : BaseType) (enc : Option Enc) (hl :
       match v with
       | .flt bits => (match Text.f64to32? bits with
           | some r => pure (r, 32)
-          | none => raise .unmodelled)                         -- rounding to binary32 is outside the model
-      | _ => raise .unmodelled                                 -- float(int/str/bytes)
+          | none => raise .unmodelled)                         -- rounding / overflow to binary32 is outside the model
+      | .int _ => raise .unmodelled                            -- float(int)
+      | _ => do odxraise .encode; raise .unmodelled            -- not a number
     | .float64 => do
       odxassert (enc = none ∨ enc = some .none_)
       if bl ≠ 64 then odxraise .odx
       match v with
       | .flt bits => pure (bits, 64)
-      | _ => raise .unmodelled)
+      | .int _ => raise .unmodelled
+      | _ => do odxraise .encode; raise .unmodelled)
   if bl = 0 then emplaceBytes [] none
   else if !bt.isNumeric && bl % 8 ≠ 0 then raise .unmodelled   -- `r<n>`, n % 8 ≠ 0: outside the envelope
   else
@@ -295,8 +300,8 @@ def extractCore (bl : Nat) (bt : BaseType) (enc : Option Enc) (hl : Bool) : DecM
   let s ← getS
   let bp := s.cursorBit
   let k := (bl + bp + 7) / 8
-  if s.cursorByte + k > s.msg.length then raise .decode     -- "Expected a longer message."
-  else if !bt.isNumeric && bl % 8 ≠ 0 then raise .unmodelled -- `r<n>`, n % 8 ≠ 0: backends differ; outside the envelope
+  if (bt = .int32 ∨ bt = .uint32) ∧ bl > 64 then raise .decode   -- integer objects cannot be longer than 64 bits
+  else if s.cursorByte + k > s.msg.length then raise .decode     -- "Expected a longer message."
   else
     let rev := !hl && bt.isNumeric
     let n := readNum s.msg s.cursorByte k (!rev)
@@ -308,6 +313,7 @@ def extractCore (bl : Nat) (bt : BaseType) (enc : Option Enc) (hl : Bool) : DecM
 /-- `DecodeState.extract_atomic_value` -/
 def extractAtomic (bl : Nat) (bt : BaseType) (enc : Option Enc) (hl : Bool) : DecM IVal := do
   if bl = 0 then pure (emptyValue bt)
+  else if !bt.isNumeric && bl % 8 ≠ 0 then raise .decode      -- byte fields and strings: whole bytes only
   else if bt = .float32 ∧ bl ≠ 32 then do odxraise .odx; extractCore 32 bt enc hl
   else if bt = .float64 ∧ bl ≠ 64 then do odxraise .odx; extractCore 64 bt enc hl
   else extractCore bl bt enc hl
